@@ -86,8 +86,23 @@ def probes_for(n, tags, rng):
     tg = set(tags[:6]) | {0, 1, 2, 3, 7, (1 << 32) - 1}
     for t in tags[:4]:
         tg.add((t + 1) & 0xFFFFFFFF)
-    ps += [f"tg:{t}" for t in sorted(tg)]
+    for t in tags[-3:]:
+        tg.add(t)
+        tg.add((t - 1) & 0xFFFFFFFF)
+    ps += [f"tg:{t}" for t in sorted({x & 0xFFFFFFFF for x in tg})]
     return " ".join(ps)
+
+
+def _ascii_tag(a):
+    return a[0] | (a[1] << 8) | (a[2] << 16) | (a[3] << 24)
+
+
+# strictly increasing as u32 values, with every byte position varying
+WIDE = sorted(set([0, 1, 2, 0xFE, 0xFF, 0x100, 0x101, 0x1FF, 0x200, 0xFF00, 0xFFFF, 0x10000, 0x10001, 0x100FF, 0x20000,
+                   0xFF0000, 0xFFFFFF, 0x1000000, 0x1000001, 0x10000FF, 0x1010000, 0x2000000, 0x7FFFFFFF, 0x80000000,
+                   0x80000001, 0xFEFFFFFF, 0xFF000000, 0xFFFFFFFE, 0xFFFFFFFF]
+                  + [_ascii_tag(t) for t in (b"SIG\0", b"NONC", b"PATH", b"SREP", b"CERT", b"INDX", b"ROOT", b"MIDP", b"RADI",
+                                             b"DELE", b"PUBK", b"MINT", b"MAXT", b"VER\0", b"SRV\0", b"ZZZZ", b"TYPE")]))
 
 
 def structured(rng):
@@ -101,6 +116,11 @@ def structured(rng):
     for _ in range(n):
         tags.append(t)
         t += rng.weighted([(2, 0), (5, 1), (1, 3)])
+    if rng.chance(2, 5):
+        # wide tags: the order of the little-endian u32 values differs from the byte-wise order of
+        # their encodings (1 < 256 < 65536 numerically, the reverse byte-wise); real Roughtime tags included
+        off = rng.below(len(WIDE))
+        tags = [WIDE[min(off + t, len(WIDE) - 1)] for t in tags]
     payload = [rng.below(256) for _ in range(sum(lens))]
     n_field = n
     mut = rng.below(14)
@@ -111,7 +131,7 @@ def structured(rng):
         offs[-1] = offs[-1] + 1 + rng.below(4) + (sum(lens) - offs[-1])  # last offset past the payload
     elif mut == 2 and len(tags) > 1:
         i = rng.below(len(tags) - 1)
-        tags[i], tags[i + 1] = tags[i + 1] + 1, tags[i]        # decreasing tags
+        tags[i], tags[i + 1] = (tags[i + 1] + 1) & 0xFFFFFFFF, tags[i]        # decreasing tags
     elif mut == 3:
         payload += [rng.below(256) for _ in range(1 + rng.below(5))]  # trailing bytes (belong to the last value)
     elif mut == 4:
